@@ -68,6 +68,9 @@ def rule_prnorm(ctx):
             P, Rc = c.args[0], c.args[1]
             if P is Rc and is_lit(P):
                 continue  # util.f_measure(0, 0) on a degenerate exit: one literal for both sides has no orientation
+            moved = [h for h in s.inlined if ctx.program.resigned(h)]
+            if moved and f.qual.startswith("hierarchy."):
+                raise AnalysisError(R, "%s: precision and recall are computed by %s evaluated in place (its signature changed); which of the two is the reference-normalised one is not read in this form" % (f.qual, moved[0]))
             verdict = None
             why = ""
             pa = [x for x in resolve_ite_free(P) if not is_lit(x)]
